@@ -189,6 +189,18 @@ func (e *Enc) resolveType(pkg *ssa.Package, s string) types.Type {
 	case "[]byte":
 		return types.NewSlice(types.Typ[types.Uint8])
 	}
+	if i := strings.LastIndex(s, "."); i > 0 && !strings.ContainsAny(s, "[]* ") {
+		// qualified name: search every loaded package with that name
+		for _, sp := range e.P.Prog.AllPackages() {
+			if sp.Pkg.Name() == s[:i] {
+				if obj := sp.Pkg.Scope().Lookup(s[i+1:]); obj != nil {
+					if tn, ok := obj.(*types.TypeName); ok {
+						return tn.Type()
+					}
+				}
+			}
+		}
+	}
 	if pkg != nil {
 		if tv, err := types.Eval(e.P.Prog.Fset, pkg.Pkg, token.NoPos, s); err == nil && tv.Type != nil {
 			return tv.Type
@@ -420,6 +432,16 @@ func (e *Enc) evalExpr(x ast.Expr, env *Env) Val {
 		}
 		if v, ok := e.lookupName(n.Name, env); ok {
 			return v
+		}
+		if gt, ok := e.CS.Ghosts[n.Name]; ok {
+			t := e.resolveType(env.pkg, gt)
+			if t == nil {
+				t = e.resolveType(e.Pkg, gt)
+			}
+			if t == nil {
+				return e.bad("ghost variable of unknown type "+gt, x)
+			}
+			return e.load(env.st, t, e.ghostObj(n.Name), m.ilit(0))
 		}
 		if obj := e.lookupPkgObj(env.pkg, n.Name); obj != nil {
 			switch o := obj.(type) {
@@ -1144,6 +1166,16 @@ func (e *Enc) evalSpec(sf *SpecFn, n *ast.CallExpr, env *Env) Val {
 // evalModTarget resolves a modifies clause to (object id term, type of modified memory).
 func (e *Enc) evalModTarget(c Clause, env *Env) (string, types.Type) {
 	switch n := c.Expr.(type) {
+	case *ast.Ident:
+		if gt, ok := e.CS.Ghosts[n.Name]; ok {
+			t := e.resolveType(env.pkg, gt)
+			if t == nil {
+				t = e.resolveType(e.Pkg, gt)
+			}
+			if t != nil {
+				return e.ghostObj(n.Name), t
+			}
+		}
 	case *ast.IndexExpr: // x[*]
 		a := e.evalExpr(n.X, env)
 		if a.Bad || a.T == nil {
